@@ -26,27 +26,38 @@ Cfg(j) == [kt |-> j.kt, variant |-> j.variant, id |-> HexToBytes(j.id), key |-> 
 Cfgs(js) == [i \in 1..Len(js) |-> Cfg(js[i])]
 
 \* mode "keyset": e.keys (first = primary) -- a single key is a keyset of one;
-\* mode "envelope": e.keys is the remote (KEK) keyset, e.dek the DEK key type, e.ep the output prefix of the
-\* envelope key itself when it lives in a keyset (empty otherwise).
+\* mode "envelope": e.keys is the remote's (KEK) keyset, e.rkind / e.padTo the kind of remote, e.dek the DEK key
+\* type, e.ep the output prefix of the envelope key itself when it lives in a keyset (empty otherwise).
+Remote(e) == [keys |-> Cfgs(e.keys), kind |-> e.rkind, padTo |-> e.padTo]
+
+\* Decrypt of an arbitrary input: Decrypt may refuse what Encrypt never emits (encrypted DEK > EnvelopeMaxEncDEK)
 Open(e, ct, ad) ==
-  IF e.mode = "envelope" THEN EnvelopeKeyOpen(HexToBytes(e.ep), Cfgs(e.keys), e.dek, ct, ad)
+  IF e.mode = "envelope" THEN EnvelopeKeyOpen(HexToBytes(e.ep), Remote(e), e.dek, ct, ad)
+  ELSE KeysetOpen(Cfgs(e.keys), ct, ad)
+
+\* opening something Encrypt DID emit: the wire format alone, whatever the size of the encrypted DEK
+OpenEmitted(e, ct, ad) ==
+  IF e.mode = "envelope" THEN EnvelopeKeyOpenMax(HexToBytes(e.ep), Remote(e), e.dek, ct, ad, EnvelopeNoBound)
   ELSE KeysetOpen(Cfgs(e.keys), ct, ad)
 
 \* length the documented format gives a ciphertext of a ptLen-byte plaintext
 WantLen(e, ct, ptLen) ==
   IF e.mode = "envelope"
   THEN LET ep == HexToBytes(e.ep)
-           f  == EnvelopeParse(Drop(ct, Len(ep)))
-           d  == KeysetOpen(Cfgs(e.keys), f.encDEK, <<>>)
+           f  == EnvelopeParseMax(Drop(ct, Len(ep)), EnvelopeNoBound)
+           d  == RemoteOpen(Remote(e), f.encDEK)
        IN Len(ep) + EnvelopeLen(Len(f.encDEK), DEKConfig(e.dek, d[2]), ptLen)
   ELSE AEADCiphertextLen(Cfg(e.keys[1]), ptLen)
 
+\* Encrypt may fail only where it documents a limit: the remote returned more than EnvelopeMaxEncDEK bytes
+EncryptMayRefuse(e) == e.mode = "envelope" /\ e.rkind = "padded" /\ e.padTo > EnvelopeMaxEncDEK
+
 JudgeEncrypt(e) ==
   IF e.panic THEN <<"Encrypt panicked">>
-  ELSE IF e.err THEN <<"Encrypt failed on a valid key and input">>
+  ELSE IF e.err THEN IF EncryptMayRefuse(e) THEN <<>> ELSE <<"Encrypt failed on a valid key and input">>
   ELSE LET ct == HexToBytes(e.ct)
            pt == HexToBytes(e.pt)
-           r  == Open(e, ct, HexToBytes(e.ad))
+           r  == OpenEmitted(e, ct, HexToBytes(e.ad))
        IN IF ~r[1] THEN <<"an independent implementation of the documented format rejects Tink's ciphertext">>
           ELSE IF r[2] # pt THEN <<"an independent implementation decrypts Tink's ciphertext to a different plaintext", BytesToHex(r[2])>>
           ELSE IF Len(ct) # WantLen(e, ct, Len(pt)) THEN <<"ciphertext length is not prefix + nonce + |pt| + tag", ToString(WantLen(e, ct, Len(pt)))>>
